@@ -25,12 +25,17 @@ def expand_chunk(packed):
     out = {"succ": [], "failures": [], "transitions": 0, "nontrivial": 0,
            "outcomes": collections.Counter(), "pruned": 0, "samples": []}
     seen_fail = {}
+    timeouts = {}
     for hist in histories:
         env.reset_globals(env.SEED)
         base = T.materialise(hist)
         base_key = T.canon_state(base)
         ops = mod.alphabet(base, cfg, hist)
         for op in ops:
+            if timeouts.get(op[0], 0) >= 2:
+                # this kind of operation keeps running into the watchdog: do not spend 5 s on each instance
+                out["skipped_after_timeouts"] = out.get("skipped_after_timeouts", 0) + 1
+                continue
             env.UUIDS.reset(env.SEED + 7919)
             try:
                 pool = T.copy_pool(base)
@@ -44,6 +49,7 @@ def expand_chunk(packed):
                 outcome = env.with_watchdog(step, 5)
             except env.Timeout:
                 outcome = ("raise", "<did-not-terminate>")
+                timeouts[op[0]] = timeouts.get(op[0], 0) + 1
             out["transitions"] += 1
             out["outcomes"][op[0] + ":" + (outcome[0] if outcome[0] == "ok" else outcome[1])] += 1
             try:
@@ -114,6 +120,9 @@ def bfs(run, modname, starts, plan, jobs=None, state_cap=None):
             run.outcomes.update(res["outcomes"])
             run.add_failures(res["failures"])
             pruned_total += res["pruned"]
+            if res.get("skipped_after_timeouts"):
+                run.caps_hit.append("%d transition(s) of an operation kind that had timed out twice in a chunk were skipped"
+                                    % res["skipped_after_timeouts"])
             for s in res["samples"]:
                 if len(run.samples) < 6:
                     run.samples.append(s)
